@@ -1,6 +1,6 @@
 (* C09 — property theorems.  Only statements, [exact lemma] and Print Assumptions. *)
 From Coq Require Import ZArith List.
-From FV Require Import Lib.RustInt C09.Model C09.Proofs C09.Proofs2 C09.Proofs3.
+From FV Require Import Lib.RustInt C09.Model C09.Proofs C09.Proofs2 C09.Proofs3 C09.Proofs4.
 Import ListNotations.
 Open Scope Z_scope.
 
@@ -111,6 +111,25 @@ Theorem c09_composite_roundtrip : forall g c cs,
     /\ zlen bytes mod 2 = 0.
 Proof. exact composite_roundtrip. Qed.
 
+(* skrifa to_path (quadratic outlines), both path styles: every contour yields nothing (empty contour,
+   or a lone off-curve point in HarfBuzz style) or exactly one move, only line/quad segments, one close *)
+Theorem c09_to_path_wellformed : forall hb pts,
+  (contour_to_path hb pts = [] /\ (pts = [] \/ (hb = true /\ exists p, pts = [p] /\ snd p = false)))
+  \/ exists sx sy body, contour_to_path hb pts = PM sx sy :: body ++ [PZ] /\ Forall is_seg body.
+Proof. exact contour_to_path_wellformed. Qed.
+(* geometric equality under implied-on-curve elision: in a contour starting on-curve, an on-curve point that
+   is the exact midpoint of its two off-curve neighbours can be dropped without changing the drawn path
+   (either style) — the points write-fonts elides are exactly those to_path re-creates *)
+Theorem c09_elide_then_reinsert : forall hb first pre q m p post,
+  snd first = true -> snd q = false -> snd p = false -> m = (cx_ (cmid q p), cy_ (cmid q p), true) ->
+  contour_to_path hb (first :: pre ++ q :: m :: p :: post) = contour_to_path hb (first :: pre ++ q :: p :: post).
+Proof. exact elide_then_reinsert. Qed.
+(* the re-created midpoint is exact for integer font-unit points (unscaled outline, half units) *)
+Theorem c09_midpoint_exact : forall a b,
+  cx_ (cmid (2 * cx_ a, 2 * cy_ a, snd a) (2 * cx_ b, 2 * cy_ b, snd b)) = cx_ a + cx_ b
+  /\ cy_ (cmid (2 * cx_ a, 2 * cy_ a, snd a) (2 * cx_ b, 2 * cy_ b, snd b)) = cy_ a + cy_ b.
+Proof. exact cmid_exact. Qed.
+
 Print Assumptions c09_flags_rle_roundtrip.
 Print Assumptions c09_deltas_accepted.
 Print Assumptions c09_coords_roundtrip.
@@ -125,3 +144,6 @@ Print Assumptions c09_component_roundtrip.
 Print Assumptions c09_composite_components_roundtrip.
 Print Assumptions c09_composite_roundtrip.
 Print Assumptions c09_simple_accepted.
+Print Assumptions c09_to_path_wellformed.
+Print Assumptions c09_elide_then_reinsert.
+Print Assumptions c09_midpoint_exact.
